@@ -292,10 +292,10 @@ func isConnErr(err error, code http3Error) bool {
 // readPrefixedStringWithByte: inside a frame a declared string length above the bytes left in the
 // frame is rejected before anything is allocated or read; the string bytes are read with
 // io.ReadFull (body executed) and charged to the frame; every failure is QPACK_DECOMPRESSION_FAILED.
-// `partial nopanic`: the run-time panic obligations of this one function are assumed, NOT proved -
-// make([]byte, size) panics (makeslice: len out of range) for a declared length above the
-// allocator's limit, which a frame header claiming up to 2^62-1 bytes permits (reported finding).
-// Preconditions of the callees (non-nil QUIC stream at every read) are still proved.
+// One run-time panic obligation of this function does not hold and is a recorded finding (F10,
+// /verif/known_findings.json): make([]byte, size) panics (makeslice: len out of range) for a
+// declared length above the allocator's limit, which a frame header claiming up to 2^62-1 bytes
+// permits. Every other panic obligation and the callees' preconditions are proved.
 //
 //@ func (*stream).readPrefixedStringWithByte(st, firstByte, prefixLen) (s, err)
 //@   requires st != nil && st.stream != nil && 1 <= prefixLen && prefixLen <= 7
